@@ -16,6 +16,13 @@ MORE_MEDIA = [["application/xml", "ref:Err"], ["application/octet-stream", None]
               ["text/event-stream", "ref:Pet"], ["application/problem+json", "ref:Err"], ["text/html", "string"], ["application/json", None],
               ["application/json", "integer"], ["application/json", "boolean"], ["text/plain", "integer"], ["application/pdf", None], ["*/*", "ref:Pet"],
               ["application/x-www-form-urlencoded", "ref:Pet"], ["application/json; charset=utf-8", "ref:Pet"], ["text/csv", "ref:Pet"]]
+# every status code that has a named token in StatusCodeToken (kept in step with the regenerated table by `named_codes`)
+def named_codes():
+    import os, re
+    t = open(os.path.join(vlib.VERIF, "lean/Oas3Model/Oas3Model/Gen/Status.lean"), encoding="utf-8").read().split("def codeTbl")[0]
+    return sorted({c for c in re.findall(r'"[A-Za-z]+?(\d{3})"', t)})
+
+
 ODD_KEYS = ["299", "100", "1XX", "3XX", "302", "418", "503", "599", "2xx", "Default", "+200", "0200", "99", "600", "1000", "20", "abc", "2XY", "", " 200", "65536", "００２"]
 
 
@@ -53,6 +60,10 @@ def cases(ctx):
         for extra in ([], ["default"], [str(int(code[0]) * 100)]):
             for lay in ("none", "json"):
                 out.append(mk([[k, LAYOUTS[lay]] for k in [code, rng] + extra]))
+    # every named exact code on its own, and next to its range: one row of the token tables each
+    for code in named_codes():
+        out.append(mk([[code, LAYOUTS["json"]]]))
+        out.append(mk([[code, LAYOUTS["none"]], [code[0] + "XX", LAYOUTS["json"]], ["default", LAYOUTS["none"]]]))
     # mixed layouts, extra media types, odd keys
     for _ in range(500 if ctx.quick else 5000):
         nk = r.randint(1, 5)
@@ -91,5 +102,5 @@ def run(ctx):
     return ctx.finish(
         checker_cmd="lake build Oas3Model.Props.C04 && #print axioms on every theorem" + ("" if ctx.quick else " && leanchecker"),
         trusted_base=vlib.TRUSTED_BASE + ["status tables regenerated from status_codes.rs / http.rs / structs.rs on every run", "numeric values of http::StatusCode constants (hand table, compared with the http crate on every run)", "syn-based extraction of the emitted parse_response chain (harness/src/facts.rs)", "body decoding (serde / Diagnostics) is not modelled"],
-        rule="every subset of {200,201,404,2XX,4XX,5XX,default} x 5 media layouts (all 640 thorough, 260 sampled quick) + random key sets with mixed/odd media types and non-canonical keys, each generated in-process from /repo's sources; the emitted parse_response chain is parsed with syn, compared with the model's chain, and JUDGED for all 500 status codes x 10 content types; all StatusCodeToken::from_str keys 95..604; non-trivial = at least one response key; distinct by input hash",
+        rule="every subset of {200,201,404,2XX,4XX,5XX,default} x 5 media layouts (all 640 thorough, 260 sampled quick) + every named exact code alone and next to its range + random key sets with mixed/odd media types and non-canonical keys, each generated in-process from /repo's sources; the emitted parse_response chain is parsed with syn, compared with the model's chain, and JUDGED for all 500 status codes x 10 content types; all StatusCodeToken::from_str keys 95..604; non-trivial = at least one response key; distinct by input hash",
         assumptions=["variant doc comments (`KEY: description`) identify the response key a variant was declared for", "reqwest::StatusCode::is_success etc. have their documented ranges"])
